@@ -360,8 +360,9 @@ pub fn physical_round(a: &Args, idx: u64, acc: &mut Acc) {
 }
 
 pub fn run(a: &Args) -> Acc {
-    let (tuples, schedules, cap) = if a.tier == "thorough" { (a.n(300, 6000), 300, 3000) } else { (a.n(150, 6000), 80, 250) };
+    // thorough: ~15 min on 16 cores (6000 tuples x cap 3000 did not finish within 45 min)
+    let (tuples, schedules, cap) = if a.tier == "thorough" { (a.n(300, 1500), 200, 1500) } else { (a.n(150, 6000), 80, 250) };
     let mut acc = par_run(a, "c17", tuples, |a, idx, acc| run_tuple(a, "c17", idx, schedules, cap, acc));
-    acc.merge(par_run(a, "c17-phys", a.n(4000, 200000), physical_round));
+    acc.merge(par_run(a, "c17-phys", a.n(4000, 100000), physical_round));
     acc
 }
